@@ -192,6 +192,9 @@ where
                 });
 
                 tokio::select! {
+                    // Prefer the result: a call that finished before the deadline must not be
+                    // reported as timed out just because the caller was polled late
+                    biased;
                     result = rx => {
                         // Task completed - unwrap the channel result
                         result.ok()
